@@ -154,6 +154,11 @@ func GetPageSize(r *http.Request, opts ...func(*pageSizeConfiguration)) (uint64,
 	if pageSize > cfg.maxPageSize {
 		return cfg.maxPageSize, nil
 	}
+	if pageSize == 0 {
+		// a list cannot be cut into pages of nothing: every page would be empty
+		// and announce another one
+		return cfg.defaultPageSize, nil
+	}
 
 	return pageSize, nil
 }
